@@ -89,6 +89,9 @@ func apiRun(args []string) error {
 			for bi := 0; bi < len(g.Inputs) && bi < 3; bi++ {
 				allS = append(allS, "\ufeff"+g.Inputs[bi].S)
 			}
+			// ... and tokens much longer than any display width (the Trace option prints tokens; it must not touch them)
+			long := strings.Repeat("xy", 30)
+			allS = append(allS, long, "( "+long+" 7", long+" "+strings.Repeat("9", 40)+" !")
 			for i, s := range allS {
 				emit := func(ep, out string) { fmt.Fprintf(w, "%s\t%d\t%d\t%s\t%s\n", g.ID, k, i, ep, out) }
 				render := func(ast *DynRoot, err error, raw []lexer.Token) (res string) {
@@ -174,6 +177,19 @@ func apiRun(args []string) error {
 				guard("ParseBytes+Trace", func() string {
 					var buf bytes.Buffer
 					a, e := b.p.ParseBytes("fn", []byte(s), tr, participle.Trace(&buf))
+					return render(a, e, raw)
+				})
+				// the definition handed out by Parser.Lexer() is the one the parser itself uses (mappers included)
+				guard("ParseFromLexer(Parser.Lexer())", func() string {
+					l, err := b.p.Lexer().Lex("fn", strings.NewReader(s))
+					if err != nil {
+						return "err " + err.Error()
+					}
+					pl, err := lexer.Upgrade(l, elideTypes(b.p.Lexer())...)
+					if err != nil {
+						return "err " + err.Error()
+					}
+					a, e := b.p.ParseFromLexer(pl, tr)
 					return render(a, e, raw)
 				})
 				if lerr == nil {
